@@ -40,6 +40,7 @@ type NodeOpts struct {
 	Resolution bool   // link requires address resolution (Ethernet-like)
 	MAC        tcpip.LinkAddress
 	Fd         bool // the NIC is the repository's fd-based Ethernet endpoint over a simulated descriptor
+	Offload    bool // the (simulated) NIC declares checksum offload: TCP and UDP checksums are left to it, nothing else
 }
 
 var (
@@ -61,6 +62,9 @@ func (w *World) NewNode(name string, mtu uint32, a4, a6 tcpip.Address, peer int,
 	var caps stack.LinkEndpointCapabilities
 	if o.Resolution {
 		caps |= stack.CapabilityResolutionRequired
+	}
+	if o.Offload {
+		caps |= stack.CapabilityChecksumOffload
 	}
 	var l *Link
 	if o.Fd {
